@@ -74,6 +74,37 @@ func EnrichWorkload(r *Rand, w *Workload, scratch string) {
 		w.CommonPass = append(w.CommonPass, path)
 		notes = append(notes, "common-passes")
 	}
+	// cross-package references: fields added to a struct of one package that refer
+	// to objects of the others (the only way two generated packages get linked)
+	if len(view.Pkgs) >= 2 && r.Chance(1, 3) {
+		var host *PkgView
+		var hostObj string
+		for i := range view.Pkgs {
+			for _, o := range view.Pkgs[i].Objects {
+				if o.Kind == ast.KindStruct && host == nil {
+					host, hostObj = &view.Pkgs[i], o.Name
+				}
+			}
+		}
+		if host != nil {
+			ps := PassSpec{Kind: "add_fields", Obj: host.Name + "." + hostObj}
+			for _, other := range view.Pkgs {
+				if other.Name == host.Name || len(other.Objects) == 0 {
+					continue
+				}
+				for k := 0; k < 2 && k < len(other.Objects); k++ {
+					o := other.Objects[(k*7+r.Intn(3))%len(other.Objects)]
+					ps.NewFields = append(ps.NewFields, FieldSpec{Name: fmt.Sprintf("foreign%s%d", other.Name, k), T: &TypeSpec{K: "ref", RefPkg: other.Name, RefName: o.Name}})
+				}
+			}
+			if len(ps.NewFields) > 0 {
+				path := "cfg/link_passes.yaml"
+				w.Files[path] = PassesFileYAML([]PassSpec{ps})
+				w.CommonPass = append(w.CommonPass, path)
+				notes = append(notes, "cross-package-refs")
+			}
+		}
+	}
 	if w.Builders && r.Chance(2, 3) {
 		// derived inside a simulated run: on odd IRs the generator itself may loop or recurse
 		var bvs []BuilderView
